@@ -159,8 +159,11 @@ def run_program(prog, strategy, trace=False, tick_budget=2):
                 exc=exc, choices=list(s.choices), steps=s.steps, deadlock_info=repr(s.deadlock) if s.deadlock else "")
 
 
+NTHREADS = [2, 2, 3, 4]
+
+
 def random_program(rng, display):
-    nthreads = rng.choice([2, 2, 3, 4])
+    nthreads = rng.choice(NTHREADS)
     pid = [0]
     fv = [0]
 
@@ -202,6 +205,8 @@ def run(chk: Check):
                    "engine/termlex.py", "hook phase observed by wrapping process_renderables (reads _live_render._shape)"]
     chk.assumptions = ["no pre-emption inside a single bytecode", "at most 4 worker threads + main + refresh thread", "unbounded scroll-back"]
     runs = []
+    if chk.thorough:
+        NTHREADS[:] = [2, 2, 3, 4, 5, 6]
     if chk.replay_only:
         c = chk.replay_only["case"]
         runs.append((c, run_program(c["program"], dsched.Replay(c["choices"]), trace=c.get("trace", False))))
